@@ -1,7 +1,8 @@
 #!/venv/bin/python
 """tools/test_py2lean2t.py — self-test of harness/py2lean2t.py (Translator2T): try / except with a bare handler around
 operations that may fail, tuple targets bound to a value that may fail, `raise` inside a try body, and call
-normalisation against the live signature of the callee (positional / keyword / mixed / defaults / swapped positions).
+normalisation against the live signature of the callee (positional / keyword / mixed / defaults / swapped positions),
+inlining of helper functions at their call sites and expansion of `**options` dictionaries held in a local.
 Translates sample functions, type-checks the Lean text and compares `#eval` with Python.  Exit 0 iff all agree."""
 import itertools, os, shutil, subprocess, sys, tempfile
 ROOT = os.path.dirname(os.path.dirname(os.path.abspath(__file__)))
@@ -73,6 +74,30 @@ def t_call_swapped(x, k):
     return callee(k, x, 1)      # a=k, b=x, c=1, d=4
 
 
+def helper_sum(a, b, c=1):
+    """a helper a clean-up might have extracted: inlined at its call sites"""
+    t = a * 10 + b
+    t = t * 10 + c
+    return t
+
+
+def t_inline(x, k):
+    r = helper_sum(x, c=k, b=2)
+    t = helper_sum(r, 1)          # a second inlining, and a local with the helper's name for its own local
+    return t + 1
+
+
+def t_inline_return(x, k):
+    if k > 1:
+        return helper_sum(k, x)
+    return helper_sum(x, k)
+
+
+def t_dict(x, k):
+    options = dict(c=k, d=1)
+    return callee(x, 2, **options)
+
+
 EXPR = [("half($x)", "half {x}", "bind"), ("split($x)", "splt {x}", "bind"),
         ("callee(a=$a, b=$b, c=$c, d=$d)", "(callee {a} {b} {c} {d})")]
 PRELUDE = """
@@ -85,10 +110,10 @@ def show' (r : Except Unit Int) : String := match r with | .ok v => toString v |
 
 def rules():
     return P.Rules2T(expr=EXPR, ret=".ok ({e})", raise_=".error ()", unwrap=(".error err", ".error err", ".ok {x}"),
-                     callees={"callee": (callee, False, "callee")})
+                     callees={"callee": (callee, False, "callee")}, helpers={"helper_sum": helper_sum})
 
 
-CASES = [t_try, t_try_then, t_tuple, t_call_kw, t_call_pos, t_call_mixed, t_call_swapped]
+CASES = [t_try, t_try_then, t_tuple, t_call_kw, t_call_pos, t_call_mixed, t_call_swapped, t_inline, t_inline_return, t_dict]
 XS = [0, 1, 2, 4, 6, 7, 8, 12, 13, 36, -3]
 KS = [0, 1, 2, 5]
 
